@@ -4,6 +4,7 @@ import (
 	"bytes"
 	"errors"
 	"fmt"
+	"net"
 	"os"
 	"os/exec"
 	"runtime/debug"
@@ -38,9 +39,12 @@ func applyStreamFaults(t *sim.Tape, data []byte, o *Outcome) ([]byte, error, str
 			data = data[:cut]
 			desc = append(desc, fmt.Sprintf("truncate@%d", cut))
 			o.stat("fault_truncate", 1)
-		case 1: // end with a transport error instead of EOF
+		case 1: // end with a transport error instead of EOF: a reset, or an expired read deadline (which stays expired)
 			endErr = syscall.ECONNRESET
-			desc = append(desc, "end=ECONNRESET")
+			if t.Draw(2, "enderr") == 1 {
+				endErr = &net.OpError{Op: "read", Net: "tcp", Err: os.ErrDeadlineExceeded}
+			}
+			desc = append(desc, fmt.Sprintf("end=%v", endErr))
 			o.stat("fault_end_error", 1)
 		case 2: // lose a segment
 			a := t.Draw(len(data), "a")
@@ -137,6 +141,10 @@ func declaresHuge(data []byte) bool {
 func drainParser(r *scriptedReader, o *Outcome, desc string) (sig string, detail string) {
 	defer func() {
 		if p := recover(); p != nil {
+			if _, ok := p.(readsAfterEnd); ok {
+				sig, detail = "c06:reads-after-end", fmt.Sprintf("Next() kept reading more than 100000 times after the stream had ended with %v", r.end())
+				return
+			}
 			sig = "c06:panic:" + repoFrame(string(debug.Stack()))
 			detail = fmt.Sprintf("parser panicked: %v", p)
 		}
@@ -368,7 +376,7 @@ func init() {
 	register(&Check{
 		ID: "C06", Bubble: false, Run: runC06,
 		Runs:   map[string]int{"quick": 300000, "thorough": 10000000},
-		Rule:   "a case is one (faulted stream, delivery schedule) pair: a valid generated stream with 1..3 transport/peer faults (truncate at any byte with EOF or ECONNRESET, segment loss/duplication/reordering, byte corruption biased to structure, length/count replaced by a boundary integer, nesting amplification) delivered whole, byte-wise, in a seeded partition and whole together with the end-of-stream indication (n>0 with EOF/ECONNRESET); 1 stream in 16 carries no fault; inputs declaring lengths above 2^20 and an enumerated boundary table run one per subprocess under a 4 GiB address-space limit; distinct = distinct (stream, partition) hashes; non-trivial = at least one fault applied",
+		Rule:   "a case is one (faulted stream, delivery schedule) pair: a valid generated stream with 1..3 transport/peer faults (truncate at any byte with EOF, ECONNRESET or a read deadline that has expired and stays expired, segment loss/duplication/reordering, byte corruption biased to structure, length/count replaced by a boundary integer, nesting amplification) delivered whole, byte-wise, in a seeded partition and whole together with the end-of-stream indication (n>0 with EOF/ECONNRESET); 1 stream in 16 carries no fault; inputs declaring lengths above 2^20 and an enumerated boundary table run one per subprocess under a 4 GiB address-space limit; distinct = distinct (stream, partition) hashes; non-trivial = at least one fault applied",
 		Real:   []string{"redis/proto parser"},
 		Stub:   []string{"transport: scripted io.Reader applying stream faults", "process isolation: prlimit --as=4GiB subprocess for allocation bombs"},
 		Assume: []string{"a deployment with a 4 GiB address-space limit must survive any input of at most 1 MiB", "coverage-guided fuzzing is a different technique and is not done"},
